@@ -69,6 +69,9 @@ func (g *vtC01Gen) podOpRL(pid int64) {
 		n[5] = int64(g.r.Intn(2))
 	default:
 		qn = g.someQuota()
+		if g.r.Intn(2) == 0 {
+			n[1], n[2] = g.amount(12), g.amount(12)
+		}
 	}
 	rec := append([]int64{2, qn, p.label}, n...)
 	rec = append(rec, p.obj...)
